@@ -337,7 +337,46 @@ def mixed_minute_run(ctx):
             break
 
 
+def merged_calendar_check(ctx, corr):
+    """several registered trading calendars (exchange + inter-bank): the real TradingDatesMixin's merged calendar — what get_trading_dates answers from and the
+    event source walks through — vs model `mergeCals`; every trading day exactly once"""
+    import datetime
+    import pandas as pd
+    from rqalpha.data.trading_dates_mixin import TradingDatesMixin
+    from rqalpha.const import TRADING_CALENDAR_TYPE
+    rnd = ctx.rnd
+    lines, cases = [], []
+    for _ in range(ctx.n(40, 1500)):
+        base = datetime.date(2020, 1, 1) + datetime.timedelta(days=rnd.randrange(0, 300))
+        pool = [base + datetime.timedelta(days=i) for i in range(rnd.randrange(5, 40))]
+        cals = []
+        for _k in range(rnd.choice([1, 2, 2, 3])):
+            cals.append(sorted(rnd.sample(pool, rnd.randrange(1, len(pool)))))
+        if rnd.random() < 0.3 and len(cals) >= 2:
+            cals[1] = list(cals[0])          # identical calendars: every day is in both
+        types = [TRADING_CALENDAR_TYPE.EXCHANGE, TRADING_CALENDAR_TYPE.INTER_BANK, "THIRD"][:len(cals)]
+        mix = TradingDatesMixin({t: pd.DatetimeIndex([pd.Timestamp(d) for d in c]) for t, c in zip(types, cals)})
+        merged = [x.date().toordinal() for x in mix.merged_trading_calendars]
+        dates = [x.date().toordinal() for x in mix.get_trading_dates(pool[0], pool[-1])]
+        lines.append("MERGECAL %d %s" % (len(cals), " ".join("%d %s" % (len(c), " ".join(str(d.toordinal()) for d in c)) for c in cals)))
+        cases.append((cals, merged, dates))
+    reps = vlib.ask_driver(lines) if ctx.driver_ok else [None] * len(lines)
+    for (cals, merged, dates), rep in zip(cases, reps):
+        ctx.evaluations += 1
+        shared = len(set.intersection(*[set(c) for c in cals])) if len(cals) > 1 else 0
+        ctx.nontrivial("merged_calendar", len(cals), shared > 0)
+        if rep is not None:
+            model = [int(x) for x in rep.split()]
+            corr.add(merged == model and dates == model, {"calendars": [[str(d) for d in c[:6]] for c in cals], "impl_merged": merged[:12], "impl_get_trading_dates": dates[:12], "model": model[:12]})
+        if any(b <= a for a, b in zip(dates, dates[1:])):
+            dup = next(a for a, b in zip(dates, dates[1:]) if b <= a)
+            ctx.witness("C08.1", {"kind": "trading_day_listed_twice", "calendars": len(cals)}, "%d registered calendars sharing %d days: get_trading_dates lists %s twice — the event source would run that trading day twice"
+                        % (len(cals), shared, datetime.date.fromordinal(dup)), {"calendars": [[str(d) for d in c] for c in cals]})
+            return
+
+
 def run(ctx):
+    merged_calendar_check(ctx, ctx.corr("merged trading calendar", "real TradingDatesMixin with 1-3 registered calendars (merged calendar, get_trading_dates) vs model `mergeCals`"))
     c1 = ctx.corr("published sequence 1d", "every published PRE/main/POST event with both clocks of real daily runs vs model `execRun (source1d ...)` incl. `_adjust_start_date`")
     c2 = ctx.corr("published sequence 1m", "minute runs on the stock minute grid with scripted universe changes vs model `execRun (source1m script ...)`")
     c3 = ctx.corr("API x phase table", "every order-placing API called in every phase of a real run vs the decorator table regenerated from the source")
